@@ -85,7 +85,7 @@ def ntlmAuth (toks : List String) : String :=
         -- server-side knowledge: its own challenge message
         let flags := Spec.Nlmp.u32at chal 20
         let srvChal := (chal.drop 24).take 8
-        let unicode := flags % 2 = 1
+        let unicode := flags &&& 1 = 1
         let srv : Spec.Nlmp.Server := ⟨key, neg, chal, srvChal, flags, if unicode then d16 else d8, if unicode then u16 else u8⟩
         match Spec.Nlmp.verify srv tok with
         | .accept k => if k = ek then "ok " ++ toHex tok else "!exported-key-mismatch"
